@@ -1,0 +1,142 @@
+// Verification hooks (cargo feature `verif`). Nothing here is compiled without the feature, and
+// with the feature every hook is a no-op until a harness arms it.
+
+//! Hooks used by the external model-checking harness:
+//!
+//! * [`point`]: a named yield point ("gate"). When a scheduler is armed on the current thread the
+//!   calling task parks until the scheduler releases it.
+//! * [`crash_point`]: a persistence step. When a recorder is armed it is told the step name, the
+//!   path involved and, for writes, the bytes about to be written.
+//! * [`fault`]: asked once per output chunk of every operator task; an armed plan may answer with
+//!   an injected error or panic.
+
+use std::cell::RefCell;
+use std::collections::BTreeMap;
+use std::path::Path;
+use std::sync::Mutex;
+use std::sync::atomic::{AtomicBool, Ordering};
+
+use tokio::sync::oneshot;
+
+/// State of an armed gate scheduler (thread-local: the harness uses a current-thread runtime).
+#[derive(Default)]
+pub struct Sched {
+    pub next: u64,
+    /// ticket -> (label, release)
+    pub pending: BTreeMap<u64, (String, oneshot::Sender<()>)>,
+    /// every label that ever arrived, in arrival order
+    pub arrived: Vec<String>,
+}
+
+thread_local! {
+    pub static SCHED: RefCell<Option<Sched>> = const { RefCell::new(None) };
+}
+
+tokio::task_local! {
+    /// Name of the harness actor (session) on whose behalf the current task runs.
+    pub static ACTOR: String;
+}
+
+/// The actor of the current task, if any.
+pub fn current_actor() -> Option<String> {
+    ACTOR.try_with(|a| a.clone()).ok()
+}
+
+/// Wrap `fut` so that it runs on behalf of the actor of the *calling* task (used where the code
+/// spawns helper tasks, so that gates inside them are attributed to the right session).
+pub fn inherit_actor<F: std::future::Future>(fut: F) -> impl std::future::Future<Output = F::Output> {
+    let actor = current_actor();
+    async move {
+        match actor {
+            Some(a) => ACTOR.scope(a, fut).await,
+            None => fut.await,
+        }
+    }
+}
+
+/// A named yield point. Returns immediately unless a scheduler is armed on this thread.
+/// The recorded label is `<actor>/<name>` (`-` when the task has no actor).
+pub async fn point(name: impl Into<String>) {
+    if !sched_armed() {
+        return;
+    }
+    let name = format!(
+        "{}/{}",
+        current_actor().unwrap_or_else(|| "-".into()),
+        name.into()
+    );
+    let rx = SCHED.with(|s| {
+        let mut g = s.borrow_mut();
+        let s = g.as_mut()?;
+        let (tx, rx) = oneshot::channel();
+        let id = s.next;
+        s.next += 1;
+        s.arrived.push(name.clone());
+        s.pending.insert(id, (name, tx));
+        Some(rx)
+    });
+    if let Some(rx) = rx {
+        let _ = rx.await;
+    }
+}
+
+/// Returns true if a gate scheduler is armed on this thread.
+pub fn sched_armed() -> bool {
+    SCHED.with(|s| s.borrow().is_some())
+}
+
+pub type CrashRecorder = Box<dyn FnMut(&str, &Path, Option<&[u8]>) + Send>;
+
+static CRASH_ARMED: AtomicBool = AtomicBool::new(false);
+static CRASH: Mutex<Option<CrashRecorder>> = Mutex::new(None);
+
+/// Arm (Some) or disarm (None) the crash-point recorder (process-wide).
+pub fn set_crash_recorder(r: Option<CrashRecorder>) {
+    let mut g = CRASH.lock().unwrap_or_else(|e| e.into_inner());
+    CRASH_ARMED.store(r.is_some(), Ordering::SeqCst);
+    *g = r;
+}
+
+/// A persistence step is about to happen (`bytes` = data about to be appended to `path`) or has
+/// just completed (`bytes` = None, the name says which).
+pub fn crash_point(name: &str, path: &Path, bytes: Option<&[u8]>) {
+    if !CRASH_ARMED.load(Ordering::Relaxed) {
+        return;
+    }
+    let mut g = CRASH.lock().unwrap_or_else(|e| e.into_inner());
+    if let Some(r) = g.as_mut() {
+        r(name, path, bytes);
+    }
+}
+
+#[derive(Debug, Clone, Copy, PartialEq, Eq)]
+pub enum FaultAction {
+    None,
+    Error,
+    Panic,
+}
+
+pub type FaultPlan = Box<dyn FnMut(&str, usize) -> FaultAction + Send>;
+
+static FAULT_ARMED: AtomicBool = AtomicBool::new(false);
+static FAULT: Mutex<Option<FaultPlan>> = Mutex::new(None);
+
+/// Arm (Some) or disarm (None) the operator fault plan (process-wide).
+pub fn set_fault_plan(p: Option<FaultPlan>) {
+    let mut g = FAULT.lock().unwrap_or_else(|e| e.into_inner());
+    FAULT_ARMED.store(p.is_some(), Ordering::SeqCst);
+    *g = p;
+}
+
+/// Asked by every operator task before it hands its `k`-th output item (k counts from 0; the
+/// end-of-stream is asked as one more item) to its consumers.
+pub fn fault(op: &str, k: usize) -> FaultAction {
+    if !FAULT_ARMED.load(Ordering::Relaxed) {
+        return FaultAction::None;
+    }
+    let mut g = FAULT.lock().unwrap_or_else(|e| e.into_inner());
+    match g.as_mut() {
+        Some(p) => p(op, k),
+        None => FaultAction::None,
+    }
+}
